@@ -304,3 +304,9 @@ def float_from_bits(hexs):
 def frac(s):
     n, d = s.split("/")
     return Fraction(int(n), int(d))
+
+
+def float_round(text):
+    """float32 value of a decimal literal (numpy-free): round-trip through struct"""
+    import struct
+    return struct.unpack("<f", struct.pack("<f", float(text)))[0]
